@@ -505,7 +505,7 @@ def validate_freelist(pairs, tag):
             f.write(json.dumps(dict(file=p["file"], a=dict(bump=p["a"]["bump"], live=p["a"]["live"], flp=p["a"]["flp"]),
                                     b=dict(bump=p["b"]["bump"], live=p["b"]["live"], flp=p["b"]["flp"]))) + "\n")
     cfg = os.path.join(C.OUT, "FreeListTrace_%s.cfg" % tag)
-    C.write_cfg(cfg, "TSpec", dict(M=1022, MaxPage=100000000, MaxAlloc=0, MaxFreed=0, MaxSyncs=0, Drop=set(), AllSubsets=False, MaxWaste=3),
+    C.write_cfg(cfg, "TSpec", dict(M=1022, MaxPage=100000000, MaxAlloc=0, MaxFreed=0, MaxSyncs=0, Drop=set(), AllSubsets=False, MaxWaste=160),
                 postcondition="Finished")
     rc, out = C.run_tlc("FreeListTrace.tla", cfg, tag="freelisttrace" + tag, nworkers=1, timeout=2400, heap="8g", env_extra={"TRACE": tp},
                         java_opts="-Xss1g -Dtlc2.tool.queue.IStateQueue=StateDeque")
